@@ -37,11 +37,16 @@ def neighbours(i):
     return [(r - 1, c - 1), (r - 1, c), (r, c - 1), (r, c + 1), (r + 1, c), (r + 1, c + 1)]
 
 
+def c07_sizes(bound, tier):
+    """one size parameter (odd, >= 3): no aspect ratio"""
+    return sizes(bound)
+
+
 def c07_cases(ctx, bound):
     from qecsim.models.color import Color666Code
     rng = ctx.rng
-    for L in sizes(bound):
-        code = Color666Code(L)
+
+    def one_size(code, L):
         tag = 'color666 {}'.format(L)
         n, k, d = code.n_k_d
         ctx.case('color666 nkd {}'.format(L), '{} {} {}'.format(n, k, d), meta={'tag': tag})
@@ -170,6 +175,10 @@ def c07_cases(ctx, bound):
             got = {s for s in all_sites if q.operator(s) != 'I'}
             if got != col0 or any(q.operator(s) != op for s in col0) or len(col0) != L:
                 ctx.monitor_fail('logical operator does not have its documented support', {'code': tag, 'operator': op})
+
+    grid = c07_sizes(bound, ctx.tier)
+    for L in grid:
+        common.per_size(ctx, NAME, (L,), lambda: Color666Code(L), one_size)
     # ---- constructor domain (one parameter)
     U = common.ctor_universe() + [(9, 'i9'), (-3, 'i-3'), (np.int64(3), 'i3'), (np.int64(2), 'i2'), (7.0, 'f7/1')]
     for a, ta in U:
